@@ -356,6 +356,7 @@ func specInScope(stack []scope, n int, s scope) bool {
 //@   loop @"for" invariant[C06] arguments-typed: forall(k, 0, len(expressions), specTyped(expressions[k]))
 //
 //@ func (*Parser).evaluateParams
+//@   callsite findVariable requires[C07,C10] a-parameter-is-checked-against-the-names-visible-in-its-file: arg1 == name && arg2 == p.prefix && !arg3
 //@   loop @"for" invariant[C06] never-nil: params != nil
 //@   loop @"for" invariant[C07,C10] no-parameter-name-twice-so-far: forall(a, 0, len(params), forall(b, 0, a, params[b].name != params[a].name))
 //@   loop @"range params" invariant[C07] the-new-name-differs-from-the-earlier-ones: forall(b, 0, rangeindex + 1, params[b].name != name)
@@ -482,10 +483,11 @@ func specInScope(stack []scope, n int, s scope) bool {
 // The type of a call as a value: the function's only result type; a call of a function with
 // several results has the type MULTIPLE (usable only where all results are taken), one of a
 // function without results no type at all.
-// write(path, data[, append]): the parser checks the path and the append flag (the data type is
-// checked by the transpiler, see its evaluateWrite); the arguments are typed expressions.
+// write(path, data[, append]): the parser checks the path, the data and the append flag (the
+// transpiler checks them a second time, see its evaluateWrite); the arguments are typed expressions.
 //@ func (*Parser).evaluateWrite
 //@   ensures[C13] a-statement-or-an-error: err == nil ==> result0 != nil
+//@   ensures[C06,C17] the-data-is-a-string: err == nil ==> isType(result0, "parser.Write") && specTyped(asType(result0, "parser.Write").data) && asType(result0, "parser.Write").data.ValueType().IsString()
 //@   ensures[C06,C17] path-is-a-string-and-the-append-flag-a-boolean: err == nil ==> isType(result0, "parser.Write") && specTyped(asType(result0, "parser.Write").path) && asType(result0, "parser.Write").path.ValueType().IsString() && specTyped(asType(result0, "parser.Write").data) && asType(result0, "parser.Write").append.ValueType().IsBool()
 //
 //@ func (*Parser).evaluatePanic
@@ -570,6 +572,8 @@ func specInScope(stack []scope, n int, s scope) bool {
 //@ func (*Parser).evaluateValues
 //@   ensures[C13] every-value-is-there: err == nil ==> forall(k, 0, len(result0.values), result0.values[k] != nil)
 //@   loop @"for" invariant[C06] values-so-far-typed: forall(k, 0, len(expressions), specTyped(expressions[k]))
+//@   loop @"for" invariant[C06] calls-so-far-yield-one-value-each: forall(k, 0, len(expressions), isType(expressions[k], "parser.FunctionCall") ==> len(asType(expressions[k], "parser.FunctionCall").returnTypes) == 1)
+//@   ensures[C06] a-call-with-several-results-stands-alone: err == nil ==> forall(k, 0, len(result0.values), isType(result0.values[k], "parser.FunctionCall") && len(asType(result0.values[k], "parser.FunctionCall").returnTypes) != 1 ==> len(result0.values) == 1 && len(asType(result0.values[k], "parser.FunctionCall").returnTypes) > 1)
 //@   ensures[C06,C13] typed-and-non-empty: err == nil ==> len(result0.values) >= 1 && forall(k, 0, len(result0.values), specTyped(result0.values[k]))
 //
 //@ func (*Parser).evaluateVarNames
